@@ -7,7 +7,7 @@ META = dict(
     level="model_checking",
     bounds="cluster_bits 9..21 enumerated (quick: 9, 16, 21); version {2,3}; standard L2 entries; external data "
            "file {no,yes}; backing {none, file of symbolic length, ALLOW_NO_BACKING_FILE}; request <= N clusters (1; thorough 2 for "
-           "cluster_bits 9, 12, 16, 21) from any 512-aligned offset; virtual size, L1 size/offset, every L1/L2/bitmap word, backing length "
+           "cluster_bits 9 and 16) from any 512-aligned offset; virtual size, L1 size/offset, every L1/L2/bitmap word, backing length "
            "and the request symbolic (64-bit), so every table/cluster placement incl. offsets beyond 4 GiB is covered",
     outside=["extended L2 (sub-cluster) entries in the integrated read path: the reader's per-bit run computation forks "
              "beyond reach (measured: > 40 min on 16 cores for one start sub-cluster); covered by the unit check of the "
@@ -29,18 +29,18 @@ def tasks(tier):
     n = 1 if tier == "quick" else 2
     for cb in bits:
         # two-cluster requests for a spread of cluster sizes, one-cluster requests for every size
-        out.append(("read", dict(cluster_bits=cb, n_clusters=n if cb in (9, 12, 16, 21) else 1)))
-    out.append(("read", dict(cluster_bits=16, n_clusters=n, backing="file")))
-    out.append(("read", dict(cluster_bits=16, n_clusters=n, data_file=True)))
-    out.append(("read", dict(cluster_bits=12, n_clusters=n, version=2)))
+        out.append(("read", dict(cluster_bits=cb, n_clusters=n if cb in (9, 16) else 1)))
+    out.append(("read", dict(cluster_bits=16, n_clusters=1, backing="file")))
+    out.append(("read", dict(cluster_bits=16, n_clusters=1, data_file=True)))
+    out.append(("read", dict(cluster_bits=12, n_clusters=1, version=2)))
     # extended L2: unit check of the sub-cluster range computation on a fully symbolic entry
     for k in ((0, 1, 17, 31) if tier == "quick" else range(32)):
         out.append(("range", dict(sc_from=k, data_file=(k % 2 == 1))))
     if tier == "thorough":
-        out.append(("read", dict(cluster_bits=16, n_clusters=n, backing="allow_no")))
-        out.append(("read", dict(cluster_bits=16, n_clusters=n, header_length=112)))
-        out.append(("read", dict(cluster_bits=9, n_clusters=n, backing="file", data_file=True)))
-        out.append(("read", dict(cluster_bits=21, n_clusters=n, version=2, backing="file")))
+        out.append(("read", dict(cluster_bits=16, n_clusters=1, backing="allow_no")))
+        out.append(("read", dict(cluster_bits=16, n_clusters=1, header_length=112)))
+        out.append(("read", dict(cluster_bits=9, n_clusters=1, backing="file", data_file=True)))
+        out.append(("read", dict(cluster_bits=21, n_clusters=1, version=2, backing="file")))
     return out
 
 
